@@ -20,7 +20,14 @@ for f in r["funcs"]:
             if p in lock:
                 lock[p].append("govc/%s/%s" % (key, o["name"]))
 aout = tempfile.mktemp(suffix=".json")
-subprocess.run(["python3-vt", os.path.join(here, "asmvc", "main.py"), "--out", aout], env=env)
+resid = {}
+try:
+    resid = json.load(open(os.path.join(here, "residuals.json")))
+except Exception:
+    pass
+skipf = tempfile.mktemp(suffix=".json")
+json.dump(sorted({x for k, v in resid.items() if isinstance(v, list) for x in v if x.startswith("asmvc/")}), open(skipf, "w"))
+subprocess.run(["python3-vt", os.path.join(here, "asmvc", "main.py"), "--out", aout, "--skip", skipf, "--timeout", "30"], env=env)
 try:
     for o in json.load(open(aout)).get("obligations", []):
         if o["status"] == "discharged":
